@@ -626,12 +626,26 @@ def s_cast(v, kind):
         if k == 'float':
             if is_conc_num(v):
                 return int(v)
-            t = toreal(v)
-            return z3.If(t >= 0, z3.ToInt(t), -z3.ToInt(-t))
+            return _trunc_to_int(toreal(v))
         raise Unsupported('complex -> int cast')
     if kind == 'bool':
         return tobool(v)
     raise Unsupported(f'cast to {kind}')
+
+
+def _trunc_to_int(t, depth=0):
+    """int(t) for a real term, keeping integer structure: trunc(ToReal(i)) = i, distributes over if-then-else"""
+    t = z3.simplify(t) if depth == 0 else t
+    if z3.is_app(t):
+        k = t.decl().kind()
+        if k == z3.Z3_OP_TO_REAL:
+            return t.arg(0)
+        if k == z3.Z3_OP_ITE and depth < 12:
+            return z3.If(t.arg(0), _trunc_to_int(t.arg(1), depth + 1), _trunc_to_int(t.arg(2), depth + 1))
+        if z3.is_rational_value(t):
+            fr = t.as_fraction()
+            return z3.IntVal(int(fr))
+    return z3.If(t >= 0, z3.ToInt(t), -z3.ToInt(-t))
 
 
 def s_equal_term(a, b):
